@@ -190,6 +190,54 @@ Example borrow_recycle_refuted :
   quirk_recycled_input [10; 11; 12; 13]%Z [90; 91]%Z <> [10; 11; 12; 13]%Z.
 Proof. vm_compute. repeat split; auto; discriminate. Qed.
 
+(* generic.NewNode*: the node handed to the caller IS the working array (HandOver), which is sound because the call forgets
+   it. As patched by the seeded change C12-8 (`defer p.Recycle()` on a protocol whose borrowed mark was lost while growing)
+   the same array also enters the pool: the next pooled-protocol user (PathNode.Marshal) writes over the node. *)
+Definition h_newnode_ok : list op :=
+  [Get 1 0 None []; Append 1 0 [10; 0; 0; 0; 2]%Z; HandOver 1 0; Get 2 0 None []; Append 2 0 [9; 9]%Z; CopyOut 2 0; Put 2 0].
+Definition h_newnode_recycle : list op :=
+  [Get 1 0 None []; Append 1 0 [10; 0; 0; 0; 2]%Z; ReturnDirect 1 0; Put 1 0; Get 2 0 (Some 0) []; Append 2 0 [9; 9]%Z; CopyOut 2 0; Put 2 0].
+
+Example newnode_recycle_refuted :
+  (* the real script is covered by the theorems and keeps the node intact *)
+  follows api_scripts h_newnode_ok /\
+  (let st := run init h_newnode_ok in In 0 (owned st) /\ ~ In 0 (pool st) /\ logical (mem st 0) = [10; 0; 0; 0; 2]%Z) /\
+  (* the patched one follows a buggy script and loses it *)
+  follows [buggy_newnode_recycle; conv_do_plain_ok] h_newnode_recycle /\
+  (let st := run init h_newnode_recycle in
+   In 0 (owned st) /\ In 0 (pool st) /\ obs_of 1 st = [[10; 0; 0; 0; 2]%Z] /\ logical (mem st 0) = []).
+Proof.
+  split; [|split; [vm_compute; repeat split; auto; intros [H|[]]; discriminate H|split; [|vm_compute; repeat split; auto]]].
+  - apply (follows_small _ _ 2); [| |right; discriminate].
+    + intros c Hc. destruct c as [|[|[|c]]]; try lia.
+      * exists conv_do_ok. split; [left; reflexivity | reflexivity].
+      * exists newnode_ok. split; [simpl; tauto | reflexivity].
+      * exists conv_do_plain_ok. split; [simpl; tauto | reflexivity].
+    + intros c Hc. destruct c as [|[|[|c]]]; try lia. reflexivity.
+  - apply (follows_small _ _ 2); [| |right; discriminate].
+    + intros c Hc. destruct c as [|[|[|c]]]; try lia.
+      * exists buggy_newnode_recycle. split; [left; reflexivity | reflexivity].
+      * exists buggy_newnode_recycle. split; [left; reflexivity | reflexivity].
+      * exists conv_do_plain_ok. split; [simpl; tauto | reflexivity].
+    + intros c Hc. destruct c as [|[|[|c]]]; try lia. reflexivity.
+Qed.
+
+(* j2t.HTTPConv.Do: the message is a fresh array (CopyOut). As patched by the seeded change C12-9 it is
+   append(h.top, body...) into the spare capacity of the converter's own header array (buffer 0, owned from the start):
+   every small message is that one array, the message returned for request 1 changes when request 2 is converted. *)
+Definition h_httpconv_append : list op :=
+  [Get 1 0 None []; Append 1 0 [1]%Z; Borrow 1 5 0; Append 1 5 [1]%Z; ReturnDirect 1 5; Put 1 0;
+   Get 2 0 (Some 0) []; Append 2 0 [2]%Z; Borrow 2 5 0; Update 2 5 2 2%Z; ReturnDirect 2 5; Put 2 0].
+
+Example httpconv_append_refuted :
+  let st0 := init_with_input [128; 1]%Z in          (* the converter's header, with room behind it *)
+  let st := run st0 h_httpconv_append in
+  Inv st0 /\ scripts_ok [buggy_httpconv_append] = false /\
+  obs_of 1 st = [[128; 1; 1]%Z] /\ obs_of 2 st = [[128; 1; 2]%Z] /\     (* both calls returned the right message ... *)
+  work st 1 5 = Some 0 /\ work st 2 5 = Some 0 /\                        (* ... in the same array *)
+  logical (mem st 0) = [128; 1; 2]%Z.                                     (* so the first one now reads as the second *)
+Proof. split; [apply inv_init_with_input | vm_compute; repeat split; auto]. Qed.
+
 (* the hypotheses of the theorems are satisfiable and the conclusions are not trivial: two interleaved calls (one
    failing and leaking, one succeeding), pool reuse with junk, a later call churning the pool *)
 Definition h_example : list op :=
